@@ -12,10 +12,12 @@ from collections.abc import Iterator
 import elementpath.aliases as ta
 from elementpath.xpath_context import XPathContext
 from .base import XPathToken
+from .functions import COMMENTS_LOOKAHEAD
 
 
 class XPathAxis(XPathToken):
-    pattern = r'\b[^\d\W][\w.\-\xb7\u0300-\u036F\u203F\u2040]*(?=\s*\:\:|\s*\(\:.*\:\)\s*\:\:)'
+    pattern = r'\b[^\d\W][\w.\-\xb7\u0300-\u036F\u203F\u2040]*' \
+              rf'(?={COMMENTS_LOOKAHEAD}\:\:)'
     label = 'axis'
     reverse_axis: bool = False
 
